@@ -38,15 +38,7 @@ def sort_names(ll):
 
         if not sorted:
             # fallback
-            sames = ''
-            for i in range(len(ll[0])):
-                checking = ll[0][i]
-                for rn in ll[1:]:
-                    is_same = (rn[i] == checking)
-                if is_same:
-                    sames += checking
-                else:
-                    break
+            sames = os.path.commonprefix(ll).rstrip('0123456789')
             print("Using prefix:", sames)
             ll.sort(key=lambda x: int(re.findall(r'\d+', x[len(sames):])[0]))
     return ll
